@@ -81,7 +81,10 @@ def run_one(prog, prefix, opts, oracle, summ, want_sample=False):
     rec = driver.run_program(prog, prefix, kinds=opts.get("kinds", ("P", "T", "K")),
                              kill_code=opts.get("kill_code", -9),
                              monitors=opts.get("_monitors", ()),
-                             kill_when=opts.get("kill_when"), starve=opts.get("starve"))
+                             kill_when=opts.get("kill_when"), starve=opts.get("starve"), p_scope=opts.get("p_scope"),
+                             t_scope=opts.get("t_scope"), t_when=opts.get("t_when"),
+                             p_when=opts.get("p_when"), t_cur=opts.get("t_cur"),
+                             zero_when=opts.get("zero_when"))
     summ.executions += 1
     summ.decisions += len(rec.alts_log)
     summ.max_decisions = max(summ.max_decisions, len(rec.alts_log))
